@@ -1,0 +1,9 @@
+//! Verification hooks. Compiled only with `--cfg nomt_verif`; with the guard off nothing in
+//! this file (nor any of the `#[cfg(nomt_verif)]` lines at the call sites) is part of the build.
+//!
+//! The guard is meant to be switched on by the simulator's shadow manifest only, which provides
+//! the `simrt` crate: the simulator observes every mutating file operation *before* it is
+//! performed (and may make it fail), owns the I/O worker threads, the fsyncer threads and a few
+//! tuning knobs that otherwise hide code paths (segment size, store growth step).
+
+pub use simrt::hooks::{io, io_verdict, knob, probe, spawn_named, Op, Verdict};
